@@ -51,8 +51,11 @@ func newLWorld(dir string) *lworld {
 	fs.VerifYield = func(path, point string) {
 		for _, q := range w.procs {
 			if q.path == path && q.running {
-				q.yield <- point
-				if !<-q.resume {
+				// the channels of THIS activation: a goroutine that is left parked for ever (process
+				// death) must not pick up the channels of a later activation of the same process slot
+				y, r := q.yield, q.resume
+				y <- point
+				if !<-r {
 					// the process dies here: park for ever
 					select {}
 				}
